@@ -607,7 +607,6 @@ func vwInverse(m map[string]string) map[string]string {
 	return r
 }
 
-
 // ---------------- every path to a namespace field, one at a time ----------------
 type vwStep struct {
 	fd   protoreflect.FieldDescriptor
@@ -751,8 +750,29 @@ func TestVerifWalker(t *testing.T) {
 		for _, root := range roots {
 			var paths [][]vwStep
 			vwNsPaths(root.desc, map[protoreflect.FullName]int{}, 9, nil, &paths)
-			for pi, path := range paths {
-				id := fmt.Sprintf("%s#p%d", root.full, pi)
+			// every path, and - for paths that run through a failure's cause - the same path with the cause chain 40 levels
+			// deeper (translation is required at any nesting depth)
+			type pathCase struct {
+				id   string
+				path []vwStep
+			}
+			var pcases []pathCase
+			for pi, p0 := range paths {
+				pcases = append(pcases, pathCase{fmt.Sprintf("%s#p%d", root.full, pi), p0})
+				for k, st := range p0 {
+					if st.fd.FullName() == "temporal.api.failure.v1.Failure.cause" {
+						ext := append([]vwStep{}, p0[:k]...)
+						for r := 0; r < 40; r++ {
+							ext = append(ext, st)
+						}
+						ext = append(ext, p0[k:]...)
+						pcases = append(pcases, pathCase{fmt.Sprintf("%s#p%d+deep", root.full, pi), ext})
+						break
+					}
+				}
+			}
+			for _, pc := range pcases {
+				id, path := pc.id, pc.path
 				if only != "" && only != id {
 					continue
 				}
@@ -990,7 +1010,10 @@ func TestVerifWalker(t *testing.T) {
 				realReq, realResp := proto.Clone(msg), proto.Clone(resp)
 				var seenReq proto.Message
 				out, err := icpt.Intercept(context.Background(), realReq, &grpc.UnaryServerInfo{FullMethod: root.method},
-					func(ctx context.Context, req any) (any, error) { seenReq = proto.Clone(req.(proto.Message)); return realResp, nil })
+					func(ctx context.Context, req any) (any, error) {
+						seenReq = proto.Clone(req.(proto.Message))
+						return realResp, nil
+					})
 				isWorkflow := strings.HasPrefix(root.method, "/temporal.api.workflowservice.v1.WorkflowService/")
 				refReq, refResp := proto.Clone(msg), proto.Clone(resp)
 				rq := &vwRef{ns: mp.ns}
